@@ -7,6 +7,7 @@
  * result_t::update x2 / done and early_stopping_t::done are used through the contracts proved in their own targets;
  * the two constructors and the accessors round() / values() are extracted and executed. */
 #include "early_stopping.h"
+#include "monitor.h"
 #include "boost.h"
 #include "selected.h"
 
@@ -90,19 +91,7 @@ static _Bool nv_monitor_done(struct nv_early_stopping* self, const struct nv_ten
   return r;
 }
 
-/* early_stopping_t::early_stopping_t(values): no improvement accepted yet -- round 0, the value +max (every finite
- * validation error improves on it), the snapshot is the given one */
-#define NV_DBL_MAX 1.7976931348623157e308
-#define NV_CONTRACT_early_stopping_ctor \
-__CPROVER_requires(__CPROVER_is_fresh(self, sizeof(*self))) \
-__CPROVER_assigns(*self) \
-__CPROVER_ensures(self->m_round == 0 && self->m_value == NV_DBL_MAX && self->m_values.id == values.id && self->m_values.rows == values.rows && self->m_values.cols == values.cols)
-#define NV_CONTRACT_early_stopping_round \
-__CPROVER_requires(__CPROVER_is_fresh(self, sizeof(*self))) __CPROVER_assigns() __CPROVER_ensures(__CPROVER_return_value == self->m_round)
-#define NV_CONTRACT_early_stopping_value \
-__CPROVER_requires(__CPROVER_is_fresh(self, sizeof(*self))) __CPROVER_assigns() __CPROVER_ensures(NV_SAME(__CPROVER_return_value, self->m_value))
-#define NV_CONTRACT_early_stopping_values \
-__CPROVER_requires(__CPROVER_is_fresh(self, sizeof(*self))) __CPROVER_assigns() __CPROVER_ensures(__CPROVER_return_value == &self->m_values)
+/* contracts of the monitor's constructor and accessors: monitor.h */
 
 /* result_t::result_t(values, train, valid, max_rounds): no learners, a statistics row of 8 columns for each of the
  * rounds 0 .. max_rounds (at least max_rounds + 1 rows) */
